@@ -6,7 +6,7 @@ unless the constraints are cyclic."""
 import itertools
 
 
-def _run(names, cons):
+def _run(names, cons, style="plain"):
     import cobald.daemon.core.config as cc
     from cobald.daemon.plugins import constraints
 
@@ -24,6 +24,23 @@ def _run(names, cons):
         def digest(section, _n=n):
             return _n
 
+        if style == "wrapped":
+            # a digest that is itself a decorated function (functools.wraps), with the constraints declared on the OUTER function
+            import functools
+
+            inner = digest
+
+            @functools.wraps(inner)
+            def digest(section, _inner=inner):
+                return _inner(section)
+        elif style == "callable-object":
+            class Digest:
+                def __init__(self, n):
+                    self.n = n
+
+                def __call__(self, section):
+                    return self.n
+            digest = Digest(n)
         if before or after:
             digest = constraints(before=before, after=after)(digest)
         eps.append(EP(n, digest))
@@ -84,8 +101,9 @@ def run(E, tier):
             cons = {names[i]: ([x for x in combo[i][0] if x != names[i]], [x for x in combo[i][1] if x != names[i]]) for i in range(n)}
             evals += 1
             cyc, edges = _cyclic(names, cons)
+            style = ("plain", "wrapped", "callable-object")[evals % 3]      # the way the digest is written must not matter
             try:
-                res = _run(names, cons)
+                res = _run(names, cons, style)
             except ValueError as ex:  # toposort.CircularDependencyError
                 if not cyc:
                     fails += 1
@@ -101,5 +119,5 @@ def run(E, tier):
                 fails += 1
                 failures.append({"plugins": cons, "what": "order %s violates %s" % (order, sorted(edges)) if not cyc else "cyclic constraints accepted"})
     return [{"function": "cobald.daemon.core.config:load_section_plugins", "tool": "exhaustive native enumeration with a patched entry-point lookup",
-             "bound": "all sets of <= %d plugins, each with at most %d before- and after-constraint(s) over the other plugins and one absent name" % (maxn, 1 if tier == "quick" else 2),
+             "bound": "all sets of <= %d plugins, each with at most %d before- and after-constraint(s) over the other plugins and one absent name; digests written as plain functions, functools.wraps-decorated functions and callable objects in rotation" % (maxn, 1 if tier == "quick" else 2),
              "evaluations": evals, "failures": failures[:5], "n_failures": fails}]
